@@ -341,3 +341,40 @@ def finding_fn(a):
             if alts: return '~'.join(alts)
             break
     return fn
+
+
+def extra_field_fork(P, cls, known):
+    """the condition of a branch this path took without the evaluator deciding it, if it tests a member of `cls` that is not in
+    `known` (a cached count, a flag, a derived value the rule tables know nothing about); else None.  Such a path neither proves
+    nor refutes a row: what the test means is not followed."""
+    def mentions(e, depth=0):
+        for x in e.walk():
+            if x.k == 'member' and x.field and ((x.d.get('class') or '') == cls or (x.d.get('class') or '').startswith(cls + '<')) and x.name not in known: return True
+            if x.k == 'ref' and x.dk == 'local' and depth < 3:
+                # a local that was given its value from such a member (`bool idle = m_idleCount > 0; … if (idle)`)
+                for src in _local_sources(x):
+                    if mentions(src, depth + 1): return True
+        return False
+    for c, v, h in getattr(P, 'decisions', []):
+        if h != 'fork' or c is None: continue
+        if mentions(c): return c
+    return None
+
+
+_src_cache = {}
+
+
+def _local_sources(ref):
+    """initialiser and right-hand sides of the assignments to the local variable `ref` names, in the translation unit it is written in"""
+    key = (id(ref.tu), ref.decl)
+    if key not in _src_cache:
+        out = []
+        for nid, d in ref.tu.ex.items():
+            if d.get('k') == 'decl':
+                for v in d.get('vars') or []:
+                    if v.get('decl') == ref.decl and v.get('init') and v['init'] in ref.tu.ex: out.append(Node(ref.tu, v['init']))
+            elif d.get('k') == 'binop' and d.get('op') == '=':
+                n = Node(ref.tu, nid); l = n.n('lhs')
+                if l is not None and l.k == 'ref' and l.decl == ref.decl and n.n('rhs') is not None: out.append(n.n('rhs'))
+        _src_cache[key] = out
+    return _src_cache[key]
